@@ -64,8 +64,10 @@ def _alarm(signum, frame):
 def run_case(machine, case, wall_s=RUN_WALL_S):
     """Run one case with a wall-clock alarm. Returns result dict."""
     K.install_seams()
-    old = signal.signal(signal.SIGALRM, _alarm)
-    signal.alarm(wall_s)
+    # the alarm counts this process's CPU time (user + system), not wall time: a run that spins has burnt it,
+    # a run that merely shares the machine with other jobs has not (all sleeps of the engine are simulated)
+    old = signal.signal(signal.SIGPROF, _alarm)
+    signal.setitimer(signal.ITIMER_PROF, wall_s)
     try:
         res = machine.run(case)
     except K.HarnessError as e:
@@ -80,12 +82,12 @@ def run_case(machine, case, wall_s=RUN_WALL_S):
         res['status'] = 'hang'
         res['violations'].append({
             'prop': case['prop'], 'sig': 'hang:no-poll-for-%ds-wall' % wall_s,
-            'detail': 'run did not finish within the wall-clock alarm; no poll cap was reached',
+            'detail': 'run did not finish within %d s of CPU time; no poll cap was reached' % wall_s,
         })
         K.WORLD = None
     finally:
-        signal.alarm(0)
-        signal.signal(signal.SIGALRM, old)
+        signal.setitimer(signal.ITIMER_PROF, 0)
+        signal.signal(signal.SIGPROF, old)
     return res
 
 
@@ -371,6 +373,10 @@ def check_main(prop, mname, argv=None, level_text=None):
         K.install_seams()
         res = run_case(machine, case)
         if not _has(res, prop, sig):
+            if sig.startswith('hang:'):
+                # a time-out that does not come back when the run is repeated was the machine, not the engine
+                print('note: %s at index %d did not reproduce; not reported' % (sig, rec['index']))
+                continue
             print('HARNESS-ERROR flaky: property=%s sig=%s index=%d did not reproduce' % (prop, sig, rec['index']))
             harness_error = 'flaky violation %s' % sig
             continue
